@@ -32,7 +32,7 @@ def run(ctx):
             ctx.bounds[f"k={K} slice"] = f"{len(trees)} of {len(cand)} trees with exactly {K} operators, chosen by VERIF_SEED={ctx.seed}"
         if not SLICE:
             ctx.bounds[f"k<={K}"] = f"{len(trees)} non-nullable trees (up to renaming of letters), sequences of length <= {L} over a,b,c,other"
-        T = 200 if ctx.quick() else 1500
+        T = 200 if ctx.quick() else 600
         for i in range(0, len(trees), B):
             batch = trees[i:i + B]
             jobs.append(Job("c14.py", "h_find_all", {"patterns": batch, "L": L}, T, 30, tag=f"k<={K} L<={L} trees[{i}:{i + len(batch)}] {pat.show(batch[0])}..", meta={"sigtag": "find_all", "tolerant": True}))
@@ -55,11 +55,11 @@ def run(ctx):
             alpha = st.get("alphabet", [])
             firsts = [None] if ctx.quick() else list(range(len(alpha)))
             for f in firsts:
-                jobs.append(Job("c14b.py", "h_shape", {"lang": lang, "pair": pair, "N": NB, "first": f, "tolerate": ["find_all:incomplete:inner-match-shadows-outer"]}, 300 if ctx.quick() else 1500, 40,
+                jobs.append(Job("c14b.py", "h_shape", {"lang": lang, "pair": pair, "N": NB, "first": f, "tolerate": ["find_all:incomplete:inner-match-shadows-outer"]}, 300 if ctx.quick() else 600, 40,
                                 tag=f"built-in header shape {lang}#{pair} N={NB}" + (f" first={alpha[f]!r}" if f is not None else ""), meta={"sigtag": "find_all:builtin", "twin": f in (None, 0)}))
             # a second balanced group after the first (macro-style / curried headers): fixed prefix `x ( ) (` + symbolic continuation
             if pair == 0 and not st.get("unmodelled"):
-                jobs.append(Job("c14b.py", "h_shape", {"lang": lang, "pair": pair, "N": 2 if ctx.quick() else 3, "prefix": ["x", "(", ")", "("], "tolerate": ["find_all:incomplete:inner-match-shadows-outer"]}, 300 if ctx.quick() else 1500, 40,
+                jobs.append(Job("c14b.py", "h_shape", {"lang": lang, "pair": pair, "N": 2 if ctx.quick() else 3, "prefix": ["x", "(", ")", "("], "tolerate": ["find_all:incomplete:inner-match-shadows-outer"]}, 300 if ctx.quick() else 600, 40,
                                 tag=f"built-in header shape {lang}#{pair}: x ( ) ( + symbolic tokens", meta={"sigtag": "find_all:builtin", "twin": False}))
     ctx.bounds["built-in header shapes"] = f"every token sequence of length {NB} over each language's predicate-induced alphabet, for every captured header expression (reference: structural interpretation of the captured expression)"
     ctx.run_xh(jobs)
